@@ -22,7 +22,7 @@ def gen(tier, rng):
                 wrap = wraps[(k + level) % 5]; flush = (k + level // 2) % 3; hb = [0, 9, 10, 11, 12, 13, 14, 15][(k + level) % 8]
                 table = [0, 1, 2][(k // 2) % 3] if level == 0 else 0
                 lbuf = [0, 1, 3, 4, 2][(k + level) % 5]
-                cpu = CPUS[(k * 5 + level) % len(CPUS)]
+                cpu = CPUS[(k + k // 4) % len(CPUS)]
                 oneshot = (k + level) % 3 == 0
                 if oneshot:
                     add(api="deflate_stateless", inp=inp, level=level, wrap=wrap, hist_bits=hb, table=table, lbuf=lbuf,
